@@ -498,6 +498,12 @@ func (g *G) indexInto(t Ty, depth int) ast.Node {
 	if !g.O.NoErrors && r.Chance(1, 3) {
 		// (e & 1023) % n is always a valid index
 		idx = ast.Binary{Op: "%", L: ast.Binary{Op: "&", L: g.Expr(Int, depth-1), R: ast.IntLit{V: 1023}}, R: ast.IntLit{V: int64(n)}}
+	} else if r.Chance(1, 3) {
+		// a call directly in the index position
+		if c, ok := g.callOf(Int, 1); ok {
+			idx = ast.Binary{Op: "%", L: ast.Binary{Op: "&", L: c, R: ast.IntLit{V: 1023}}, R: ast.IntLit{V: int64(n)}}
+			g.cls("operand:call-in-index")
+		}
 	}
 	if vs, _ := g.varsOf(ArrOf(t)); len(vs) > 0 && !g.O.NoErrors && r.Chance(1, 3) {
 		// indexing a variable array: may be an index error, RS decides
@@ -1338,4 +1344,20 @@ func (g *G) scopedStmtNoMulti(depth int) ast.Node {
 		return ast.IntLit{V: 0}
 	}
 	return st
+}
+
+// Helpers returns definitions of fixed helper functions and makes them
+// visible to the generator: tclob uses the temp register and loops, so a call
+// to it clobbers whatever the caller wrongly left in VM-wide registers.
+func (g *G) Helpers() []ast.Node {
+	n := ast.Name{N: "n"}
+	defs := []ast.Node{
+		ast.Assign{Name: "tclob", Value: ast.FuncLit{Params: []string{"n"}, Body: ast.Binary{Op: "-", L: ast.Binary{Op: "*", L: ast.Binary{Op: "+", L: n, R: ast.IntLit{V: 0}}, R: ast.IntLit{V: 1}}, R: ast.IntLit{V: 0}}}},
+		ast.Assign{Name: "tloop", Value: ast.FuncLit{Params: []string{"n"}, Body: ast.Block{Stmts: []ast.Node{
+			ast.Assign{Name: "r", Value: ast.IntLit{V: 0}},
+			ast.For{Vars: []string{"i"}, Iters: []ast.Node{ast.Call{Fn: "fromto", Args: []ast.Node{ast.IntLit{V: 0}, ast.IntLit{V: 2}}}}, Body: ast.Assign{Name: "r", Value: ast.Binary{Op: "+", L: ast.Binary{Op: "*", L: ast.Name{N: "r"}, R: ast.IntLit{V: 0}}, R: n}}},
+			ast.Name{N: "r"}}}}},
+	}
+	g.Globals = append(g.Globals, Var{Name: "tclob", T: FunOf(Int, Int)}, Var{Name: "tloop", T: FunOf(Int, Int)})
+	return defs
 }
